@@ -148,14 +148,20 @@ def _init_worker():
     pass
 
 
+_HISTORY = []     # shards this worker process has run so far (a worker serves many shards, one after the other)
+
+
 def _run_shard(args):
     modname, shard = args
     mod = sys.modules.get(modname) or __import__(modname, fromlist=['x'])
     t0 = time.time()
+    before = list(_HISTORY)
+    _HISTORY.append(shard)
     acc = mod.run_shard(shard)
     acc.extra['shard_s'] += time.time() - t0
     for v in acc.viol:
         v.setdefault('shard', shard)
+        v.setdefault('worker_history', before)
     acc._classify = None          # closures do not pickle; classification is done
     return acc
 
@@ -238,6 +244,9 @@ def write_replay(prop_id, v, snippet):
     if v.get('history_dependent'):
         rec['history_dependent'] = True
         rec['shard'] = jsonable(v.get('shard'))
+        if v.get('varying'):
+            rec['varying'] = True
+            rec['another_run_failed_on'] = v.get('varying_example')
     dig = hashlib.blake2b(json.dumps([rec['sub'], rec['case']], sort_keys=True).encode(),
                           digest_size=6).hexdigest()
     path = os.path.join(REPLAY_DIR, '%s-%s.json' % (prop_id, dig))
@@ -265,6 +274,7 @@ def finish(mod, tier, total, coverage, t0, assumptions):
     prop_id = mod.ID
     total.viol.sort(key=lambda x: (x['size'], repr(x['case'])))
     reported = []
+    unreproducible = []
     seen_keys = set()
     for v in total.viol:
         key = (v['sub'], repr(v['case']))
@@ -282,13 +292,25 @@ def finish(mod, tier, total, coverage, t0, assumptions):
             # not reproducible in isolation: either the harness is nondeterministic, or the code under test
             # carries state from one call to the next.  Decide by re-running the whole shard (the exact call
             # history of the worker) twice in fresh processes.
-            if v.get('shard') is None or not shard_reproduces(mod, v):
-                raise HarnessError('nondeterministic replay for %s %r: worker saw %r, replays saw %r / %r'
-                                   % (prop_id, v['case'], (v['sub'], v['observed']), obs[0], obs[1]))
+            how = shard_reproduces(mod, v) if v.get('shard') is not None else None
+            if how is None:
+                unreproducible.append('nondeterministic replay for %s %r: worker saw %r, replays saw %r / %r'
+                                      % (prop_id, v['case'], (v['sub'], v['observed']), obs[0], obs[1]))
+                continue
             v['history_dependent'] = True
-            v['msg'] = (v.get('msg', '') + ' [history-dependent: fails only after the calls made earlier in the same '
-                        'process; replay re-runs the shard]').strip()
+            if how == 'exact':
+                v['msg'] = (v.get('msg', '') + ' [history-dependent: fails only after the calls made earlier in the '
+                            'same process; replay re-runs the shard]').strip()
+            else:
+                v['varying'] = True
+                v['msg'] = (v.get('msg', '') + ' [state-dependent: the shard fails again in every fresh interpreter, '
+                            'but not always on this very case (the outcome depends on leftovers of earlier calls or '
+                            'on object addresses); replay re-runs the shard and reports any violation of it]').strip()
+            if how == 'varying' and any(r.get('varying') for r in reported):
+                continue                       # one record per run is enough for a wandering failure
         reported.append(v)
+    if unreproducible and not reported:
+        raise HarnessError(unreproducible[0])
     for fid, (n, sz, ex) in sorted(total.known.items()):
         print('KNOWN-FINDING: property=%s %s: %s (%d cases in this run, e.g. %s)' % (
             prop_id, fid, known_desc(prop_id, fid), n, json.dumps(jsonable(ex['case']))[:200]))
@@ -323,17 +345,45 @@ def finish(mod, tier, total, coverage, t0, assumptions):
     return 1 if total.nviol else 0
 
 
+_SHARD_RERUNS = {}
+_HIST_ATTEMPTS = [0]
+
+
 def shard_reproduces(mod, v):
-    """Run the violation's shard twice in fresh interpreters; True iff both report the same (sub, case)."""
+    """Run the violation's shard twice in fresh interpreters.  'exact' iff both runs report the same (sub, case);
+    'varying' iff both runs report violations but not (both times) this very case - code whose outcome depends on
+    memory addresses or on leftovers of earlier calls fails on a different case from run to run; None iff a
+    re-run is silent."""
     import subprocess
     want = [v['sub'], jsonable(v['case'])]
-    for _ in range(2):
-        r = subprocess.run([os.path.join(VERIF, 'check'), mod.ID, '--replay-shard', json.dumps(v['shard'])],
-                           capture_output=True, text=True)
-        hits = [json.loads(l[6:]) for l in r.stdout.splitlines() if l.startswith('SHARD ')]
-        if want not in [[h['sub'], h['case']] for h in hits]:
-            return False
-    return True
+
+    def attempt(spec):
+        key = json.dumps(spec, sort_keys=True)
+        if key not in _SHARD_RERUNS:
+            runs = []
+            for _ in range(2):
+                r = subprocess.run([os.path.join(VERIF, 'check'), mod.ID, '--replay-shard', json.dumps(spec)],
+                                   capture_output=True, text=True)
+                runs.append([json.loads(l[6:]) for l in r.stdout.splitlines() if l.startswith('SHARD ')])
+            _SHARD_RERUNS[key] = runs
+        runs = _SHARD_RERUNS[key]
+        exact = all(want in [[h['sub'], h['case']] for h in hits] for hits in runs)
+        anyhit = all(hits for hits in runs)
+        alt = runs[0][0] if runs[0] else None
+        return 'exact' if exact else ('varying' if anyhit else None), alt
+
+    how, alt = attempt(v['shard'])
+    if how is None and v.get('worker_history') and _HIST_ATTEMPTS[0] < 2:
+        _HIST_ATTEMPTS[0] += 1
+        # the state may have been left behind by an earlier shard served by the same worker process: replay the
+        # worker's whole sequence of shards
+        spec = list(v['worker_history']) + [v['shard']]
+        how, alt = attempt(spec)
+        if how is not None:
+            v['shard'] = spec
+    if how == 'varying':
+        v['varying_example'] = alt
+    return how
 
 
 def known_desc(prop_id, fid):
